@@ -139,6 +139,7 @@ inductive Op
   | packet (id : Nat) (ok : Bool) (order : List Nat)
   | setWrite (ok : Bool)
   | tick                                      -- `_async_send_keep_alive` (as far as dispatch state is concerned)
+  | lost                                      -- `connection_lost(None)` after the transport was closed
 deriving Repr
 
 def stepOp (c : Cfg) (s : St) : Op → St
@@ -153,6 +154,7 @@ def stepOp (c : Cfg) (s : St) : Op → St
       | (s, some _) => s
       | (s, none) => { s with pongArmed := true, pendingPing := true }
     else { s with pendingPing := true }
+  | .lost => reportFatal s .socketClosed
 
 def run (c : Cfg) (s : St) (ops : List Op) : St := ops.foldl (stepOp c) s
 
